@@ -1,8 +1,10 @@
+(* C19/Proofs.v — lemmas behind C19/Props.v. *)
 From Coq Require Import String Ascii List Bool NArith Arith Lia.
 From Tally Require Import Lib.Str C19.Model C19.Source Gen.C19Patterns.
 Import ListNotations.
 Open Scope string_scope.
 
+(* ================================================================== the source is the modelled one *)
 Definition expected_text (v : variant) := match v with Orig => expected_orig | Fixed => expected_fixed end.
 Definition source_ok : Prop :=
   C19Src.pattern_subs = pattern_subs /\ C19Src.pattern_escape = pattern_escape /\
@@ -12,3 +14,103 @@ Definition source_ok : Prop :=
   C19Src.source_text = expected_text C19Src.variant_of_source.
 Lemma source_is_modelled : source_ok.
 Proof. repeat split; reflexivity. Qed.
+
+(* ================================================================== characters (256 cases each) *)
+Ltac all_chars c := destruct c as [[] [] [] [] [] [] [] []]; try reflexivity; try discriminate.
+
+Lemma ceq_eq a b : ceq a b = true -> a = b.
+Proof.
+  unfold ceq, cn. intros H. apply N.eqb_eq in H.
+  rewrite <- (ascii_N_embedding a), <- (ascii_N_embedding b). now rewrite H.
+Qed.
+Lemma ceq_refl a : ceq a a = true.
+Proof. unfold ceq. apply N.eqb_refl. Qed.
+Lemma upper_char_idem c : upper_char (upper_char c) = upper_char c.
+Proof. all_chars c. Qed.
+Lemma ws_not_meta c : is_ws c = true -> is_meta c = false.
+Proof. all_chars c. Qed.
+Lemma lf_is_ws c : is_lf c = true -> is_ws c = true.
+Proof. all_chars c. Qed.
+Lemma alpha_case_not_ws c : is_alpha c = true -> is_ws (upper_char c) = false /\ is_ws (lower_char c) = false.
+Proof. all_chars c; intros; split; reflexivity. Qed.
+
+(* ================================================================== strings *)
+Lemma sapp_assoc (a b c : string) : (a ++ b) ++ c = a ++ (b ++ c).
+Proof. induction a as [|x a IH]; simpl; [reflexivity | now rewrite IH]. Qed.
+Lemma sapp_nil_r (a : string) : a ++ "" = a.
+Proof. induction a as [|x a IH]; simpl; [reflexivity | now rewrite IH]. Qed.
+Lemma slen_app (a b : string) : String.length (a ++ b) = String.length a + String.length b.
+Proof. induction a as [|x a IH]; simpl; [reflexivity | now rewrite IH]. Qed.
+Lemma take_app_exact (a b : string) : take (String.length a) (a ++ b) = a.
+Proof. induction a as [|x a IH]; simpl; [now destruct b | now rewrite IH]. Qed.
+Lemma drop_app_exact (a b : string) : drop (String.length a) (a ++ b) = b.
+Proof. induction a as [|x a IH]; simpl; [now destruct b | exact IH]. Qed.
+Lemma drop_suffix n s : exists p, s = p ++ drop n s.
+Proof.
+  revert s; induction n as [|n IH]; intros s.
+  - exists "". now destruct s.
+  - destruct s as [|c r]; [now exists ""|]. destruct (IH r) as [p Hp]. exists (String c p). simpl. now rewrite <- Hp.
+Qed.
+Lemma span_drop p s : s = take (span p s) s ++ drop (span p s) s.
+Proof. induction s as [|c r IH]; simpl; [reflexivity|]. destruct (p c); simpl; [now rewrite <- IH | reflexivity]. Qed.
+Lemma span_len p s : span p s + String.length (drop (span p s) s) = String.length s.
+Proof. induction s as [|c r IH]; simpl; [reflexivity|]. destruct (p c); simpl; [now rewrite IH | reflexivity]. Qed.
+Lemma span_all p s : allb p s = true -> span p s = String.length s.
+Proof.
+  induction s as [|c r IH]; simpl; [reflexivity|]. intros H. apply andb_true_iff in H as [H1 H2].
+  rewrite H1. now rewrite IH.
+Qed.
+Lemma allb_app p a b : allb p (a ++ b) = (allb p a && allb p b)%bool.
+Proof. induction a as [|x a IH]; simpl; [reflexivity | now rewrite IH, andb_assoc]. Qed.
+Lemma upper_app a b : upper (a ++ b) = upper a ++ upper b.
+Proof. unfold upper. induction a as [|x a IH]; simpl; [reflexivity | now rewrite IH]. Qed.
+Lemma upper_idem a : upper (upper a) = upper a.
+Proof. unfold upper. induction a as [|x a IH]; simpl; [reflexivity | now rewrite IH, upper_char_idem]. Qed.
+
+(* substring relation and its decision procedure (Python `in`) *)
+Definition substr (a b : string) : Prop := exists p q, b = p ++ a ++ q.
+Lemma substr_refl a : substr a a.
+Proof. exists "", "". simpl. now rewrite sapp_nil_r. Qed.
+Lemma substr_trans a b c : substr a b -> substr b c -> substr a c.
+Proof.
+  intros [p [q H]] [p' [q' H']]. exists (p' ++ p), (q ++ q'). subst.
+  now rewrite !sapp_assoc.
+Qed.
+Lemma substr_suffix p s : substr s (p ++ s).
+Proof. exists p, "". now rewrite sapp_nil_r. Qed.
+Lemma substr_prefix s q : substr s (s ++ q).
+Proof. now exists "", q. Qed.
+Lemma substr_cons a c b : substr a b -> substr a (String c b).
+Proof. intros [p [q H]]. exists (String c p), q. simpl. now rewrite H. Qed.
+Lemma substr_upper a b : substr a b -> substr (upper a) (upper b).
+Proof. intros [p [q H]]. exists (upper p), (upper q). subst. now rewrite !upper_app. Qed.
+
+Lemma prefixb_app a q : prefixb a (a ++ q) = true.
+Proof. induction a as [|x a IH]; simpl; [reflexivity | now rewrite ceq_refl, IH]. Qed.
+Lemma prefixb_spec a b : prefixb a b = true -> exists q, b = a ++ q.
+Proof.
+  revert b; induction a as [|x a IH]; intros b H; simpl in *.
+  - now exists b.
+  - destruct b as [|y b]; [discriminate|]. apply andb_true_iff in H as [H1 H2].
+    apply ceq_eq in H1. subst. destruct (IH _ H2) as [q Hq]. exists q. now rewrite Hq.
+Qed.
+Lemma substrb_complete a b : substr a b -> substrb a b = true.
+Proof.
+  intros [p [q H]]. subst b. induction p as [|c p IH]; simpl.
+  - destruct (a ++ q) eqn:E; simpl; rewrite <- ?E; rewrite prefixb_app; reflexivity.
+  - rewrite IH. apply orb_true_r.
+Qed.
+Lemma substrb_sound a b : substrb a b = true -> substr a b.
+Proof.
+  induction b as [|c b IH]; simpl; intros H.
+  - rewrite orb_false_r in H. apply prefixb_spec in H as [q Hq]. exists "", q. exact Hq.
+  - apply orb_true_iff in H as [H|H].
+    + apply prefixb_spec in H as [q Hq]. exists "", q. exact Hq.
+    + apply substr_cons. now apply IH.
+Qed.
+
+Lemma ci_contains_of_substr_upper w d : substr w (upper d) -> ci_contains w d = true.
+Proof.
+  intros H. unfold ci_contains. apply substrb_complete.
+  apply substr_upper in H. now rewrite upper_idem in H.
+Qed.
